@@ -62,7 +62,10 @@ def pp(e, ren=None):
     if k == 'if': return f"(if ({pp(e[1], ren)}) {{ {pp(e[2], ren)} }} else {{ {pp(e[3], ren)} }})"
     if k == 'call': return f"{fname(e[1], ren)}({', '.join(pp(a, ren) for a in e[2])})"
     if k == 'mem': return f"mem({pp(e[1], ren)})"
-    if k == 'delay': return f"delay({e[1]}.0, {pp(e[2], ren)}, {pp(e[3], ren)})"
+    if k == 'delay':
+        # a non-integer maximum is truncated by the compiler (max_time as u64): `delay(3.5, ..)` must behave like `delay(3.0, ..)`
+        frac = "5" if (ren or {}).get(('opt', 'frac_delay')) else "0"
+        return f"delay({e[1]}.{frac}, {pp(e[2], ren)}, {pp(e[3], ren)})"
     raise ValueError(e)
 
 
@@ -507,8 +510,9 @@ def unjson(p):
 def impl_requests(cases, extra=None):
     reqs = []
     n_iso = [0]
-    for p, rows in cases:
-        r = {"src": pp_prog(p), "n": len(rows)}
+    for ci, (p, rows) in enumerate(cases):
+        # every 4th program is printed with non-integer delay maxima (same meaning: the compiler truncates them)
+        r = {"src": pp_prog(p, {('opt', 'frac_delay'): True} if ci % 4 == 3 else None), "n": len(rows)}
         if p['inputs']:
             r["inputs"] = [[float(v) for v in row] for row in rows]
         if extra:
